@@ -147,13 +147,22 @@ SCHEMES = ["http://example.org", "https://h:8080", "s3://bucket", "ftp://u@h"]
 SHAPES = ("file", "listing", "secondary", "array", "record")
 
 
+_HIDDEN = [False]
+
+
 def _rel(n, idx):
-    """(name, percent-encoded name) for the first n alphabet indexes."""
+    """(name, percent-encoded name) for the first n alphabet indexes. In hidden mode every path
+    component of the name gets a leading '.' ('a/b' -> '.a/.b': hidden files and directories; '.' is
+    unreserved in a URI; no '.' or '..' component can arise)."""
     rel, qrel = "", ""
     for k in range(n):
         a, q = PAIRS[idx[k]]
+        if _HIDDEN[0]:
+            a, q = a.replace("/", "/."), q.replace("/", "/.")
         rel = rel + a
         qrel = qrel + q
+    if _HIDDEN[0]:
+        rel, qrel = "." + rel, "." + qrel
     return rel, qrel
 
 
@@ -280,6 +289,15 @@ def prop_remap(shapes, form: str, dset, n, idx) -> bool:
             if not _check(shape, form, d, name):
                 return False
     return True
+
+
+def prop_remap_hidden(shapes, form: str, dset, n, idx) -> bool:
+    """prop_remap for dot-prefixed names (hidden files / directories)."""
+    _HIDDEN[0] = True
+    try:
+        return prop_remap(shapes, form, dset, n, idx)
+    finally:
+        _HIDDEN[0] = False
 
 
 def make_foreign(kind: int, url: str):
@@ -519,6 +537,23 @@ def specs(tier: str):
                     k, 8, shape, (shape,), form, ncls, (0, 1, 2, 4), "d0124",
                     f"recursion: {shape} ({form} form)", 0.5,
                 )
+    # 2b. dot-prefixed (hidden) components
+    kh = 2 if quick else 3
+    params, pre, idx = _name_pre(kh, "any", None)
+    for form, dset in (("path", (0, 1, 7)), ("location", (0, 2, 6)), ("both", (0,))):
+        out.append(
+            Spec(
+                name=f"hidden_{form}",
+                group="hidden names: every path component of the name starts with '.'",
+                source=mk_source(IMPORTS, params, pre, f"prop_remap_hidden({SHAPES!r}, {form!r}, {dset!r}, n, {idx})"),
+                cond=600 if quick else 2400,
+                path=60,
+                bound=f"all shapes {SHAPES}, {form} form; name = 1..{kh} elements of {ALPHABET} (first is not '/b') with a '.' in front of every path component ('.a', '.a/.b', '. %'); "
+                f"for each (old_dir, new_dir) in {[DIRS[i] for i in dset]}",
+                symbolic=f"name length + {kh} alphabet indexes ({_count(kh, 'any', None)} names)",
+                targets=TARGETS,
+            )
+        )
     # 3. other URL schemes untouched  /  4. non-file values untouched
     for part in _parts("any", 1 if quick else 8):
         names = _count(k, "any", part)
